@@ -458,6 +458,12 @@ void HttpRequest::read()
 	_proto = _command.substring(j + 1).trim();
 
 	readHeaders();
+
+	if (_socket->handle() < 0) // malformed header block, connection dropped: there is no request to hand over
+	{
+		_method = "";
+		return;
+	}
 	
 	if (header("Expect") == "100-continue")
 	{
